@@ -111,6 +111,7 @@ func (d *Device) handleABSEvent(ie *input.InputEvent) {
 		// and for actions: the axis holds an action from a mapping in which it triggered actions,
 		// in this mapping it has another role (or none), so its way back can only be seen here
 		d.releaseHeldAxisAction(analogIdentifier(ie, false), "")
+		d.releaseHeldAxisAction(analogIdentifier(ie, true), "")
 	}
 
 	if !analogOk || analog.MappingType != config.AnalogKeySim {
@@ -315,27 +316,38 @@ func (d *Device) handleABSEvent(ie *input.InputEvent) {
 		}
 
 		identifier := analogIdentifier(ie, false)
+		identifierNeg := analogIdentifier(ie, true)
 
 		// a held pair of actions blocks new presses only, releases always have to be registered
 		switch {
 		case value <= -0.5:
-			d.releaseHeldAxisAction(identifier, analog.ActionNeg)
+			d.releaseHeldAxisAction(identifier, "")
+			d.releaseHeldAxisAction(identifierNeg, analog.ActionNeg)
 			d.releaseAxisAction(analog.Action)
 
+			if _, held := d.axisActionTracker[identifierNeg]; held {
+				// further positions beyond half travel belong to the press that has been registered already
+				return
+			}
 			if d.checkDoubleActions(analog.ActionNeg) {
 				return
 			}
 			d.invokeActionPress(analog.ActionNeg)
 			d.actionTracker[analog.ActionNeg] = true
-			d.axisActionTracker[identifier] = analog.ActionNeg
+			d.axisActionTracker[identifierNeg] = analog.ActionNeg
 		case value > -0.49 && value < 0.49:
 			d.releaseHeldAxisAction(identifier, "")
+			d.releaseHeldAxisAction(identifierNeg, "")
 			d.releaseAxisAction(analog.ActionNeg)
 			d.releaseAxisAction(analog.Action)
 		case value >= 0.5:
+			d.releaseHeldAxisAction(identifierNeg, "")
 			d.releaseHeldAxisAction(identifier, analog.Action)
 			d.releaseAxisAction(analog.ActionNeg)
 
+			if _, held := d.axisActionTracker[identifier]; held {
+				return
+			}
 			if d.checkDoubleActions(analog.Action) {
 				return
 			}
